@@ -82,6 +82,27 @@ fn book_with(strings: &[String]) -> Spreadsheet {
     b
 }
 
+/// a workbook read lazily from a file with sheet 1 = x, y and sheet 2 = r, x (loaded table x, y, r);
+/// sheet 1 is deserialized and given `strings`, sheet 2 stays raw
+fn lazy_book_with(strings: &[String]) -> Spreadsheet {
+    let mut b = umya_spreadsheet::new_file();
+    b.get_sheet_mut(&0).unwrap().get_cell_mut((1, 1)).set_value_string("x");
+    b.get_sheet_mut(&0).unwrap().get_cell_mut((1, 2)).set_value_string("y");
+    b.new_sheet("Raw").unwrap();
+    b.get_sheet_mut(&1).unwrap().get_cell_mut((1, 1)).set_value_string("r");
+    b.get_sheet_mut(&1).unwrap().get_cell_mut((1, 2)).set_value_string("x");
+    let bytes = save_bytes(&b).expect("base save");
+    let mut l = umya_spreadsheet::reader::xlsx::read_reader(std::io::Cursor::new(bytes), false).expect("lazy read");
+    l.read_sheet(0);
+    for r in 1..=4u32 {
+        l.get_sheet_mut(&0).unwrap().remove_cell((1, r));
+    }
+    for (i, s) in strings.iter().enumerate() {
+        l.get_sheet_mut(&0).unwrap().get_cell_mut((1, i as u32 + 1)).set_value_string(s.clone());
+    }
+    l
+}
+
 fn render(v: &crate::c12::SavedView) -> String {
     format!(
         "sst={};idx={}",
@@ -101,9 +122,19 @@ pub fn exec(out: &mut Out, line: &str) -> (String, bool) {
     let progs: Vec<Vec<String>> =
         a[4..].iter().map(|p| if *p == "-" { vec![] } else { p.split(',').map(|x| x.to_string()).collect() }).collect();
     let n = progs.len();
-    // workbooks: one shared object (mode same) or clones of a base, each edited to its own strings
-    let shared: Option<Arc<Spreadsheet>> = if mode == "same" { Some(Arc::new(book_with(&progs[0]))) } else { None };
-    let base = book_with(&progs[0]);
+    let lazy = mode.starts_with("lazy");
+    // workbooks: one shared object (mode same) or clones of a base, each edited to its own strings.
+    // lazy modes: the base is a two-sheet file opened with lazy_read whose second sheet is never
+    // deserialized, so that the save copies it verbatim and has to keep the loaded table in front
+    let mk = |strings: &[String]| -> Spreadsheet {
+        if lazy {
+            lazy_book_with(strings)
+        } else {
+            book_with(strings)
+        }
+    };
+    let shared: Option<Arc<Spreadsheet>> = if mode.ends_with("same") { Some(Arc::new(mk(&progs[0]))) } else { None };
+    let base = mk(&progs[0]);
     let books: Vec<Arc<Spreadsheet>> = (0..n)
         .map(|i| match &shared {
             Some(s) => s.clone(),
@@ -159,7 +190,7 @@ pub fn exec(out: &mut Out, line: &str) -> (String, bool) {
         for _ in 0..progs[i].len() {
             want.push("register");
         }
-        if !progs[i].is_empty() {
+        if !progs[i].is_empty() || lazy {
             want.push("dump");
         }
         want.push("exit");
@@ -196,9 +227,9 @@ fn interleavings(lens: &[usize]) -> Vec<String> {
     out
 }
 
-fn steps(p: &str) -> usize {
+fn steps(p: &str, lazy: bool) -> usize {
     let k = if p == "-" { 0 } else { p.split(',').count() };
-    if k == 0 {
+    if k == 0 && !lazy {
         2
     } else {
         k + 3
@@ -220,9 +251,17 @@ pub fn gen(tier: Tier, seed: u64) -> Vec<String> {
         ("clone", vec!["a", "-"]),
         ("clone", vec!["a,b,c", "c,b,a"]),
         ("clone", vec!["a,b,c", "d,e,f"]),
+        // lazily read workbook with a raw sheet: the save seeds its table with the loaded one (x, y, r)
+        ("lazysame", vec!["a,b", "a,b"]),
+        ("lazysame", vec!["a,x,b", "a,x,b"]),
+        ("lazyclone", vec!["a,b", "a,b"]),
+        ("lazyclone", vec!["a,b", "c,d"]),
+        ("lazyclone", vec!["a,r", "b,a"]),
+        ("lazyclone", vec!["a", "-"]),
+        ("lazyclone", vec!["a,b,c", "c,d,a"]),
     ];
     for (mode, ps) in &two {
-        let lens: Vec<usize> = ps.iter().map(|p| steps(p)).collect();
+        let lens: Vec<usize> = ps.iter().map(|p| steps(p, mode.starts_with("lazy"))).collect();
         let all = interleavings(&lens);
         // quick: every interleaving of the 2-string configurations, a sample of the 3-string ones
         let take_all = tier == Tier::Thorough || lens.iter().sum::<usize>() <= 10;
@@ -238,9 +277,11 @@ pub fn gen(tier: Tier, seed: u64) -> Vec<String> {
         ("clone", vec!["a,b", "b", "a"]),
         ("clone", vec!["a,b", "b,c", "c,a"]),
         ("same", vec!["a,b", "a,b", "a,b"]),
+        ("lazysame", vec!["a,b", "a,b", "a,b"]),
+        ("lazyclone", vec!["a,b", "b,c", "c,a"]),
     ];
     for (mode, ps) in &three {
-        let lens: Vec<usize> = ps.iter().map(|p| steps(p)).collect();
+        let lens: Vec<usize> = ps.iter().map(|p| steps(p, mode.starts_with("lazy"))).collect();
         let all = interleavings(&lens);
         let denom = if tier == Tier::Thorough { 1 } else { (all.len() as u64 / 150).max(1) };
         for s in &all {
